@@ -30,7 +30,8 @@ func implPass(raw json.RawMessage) (any, error) {
 	return world.Extract(res), nil
 }
 
-var passOpts = world.GenOpts{PreferOnSpreadKey: 0.35, PodEventsFirst: 0.3, InterPod: 0.75, NodeAffinity: 0.15, Existing: 0.6, Limits: 0.0, MaxPods: 6}
+var passOpts = world.GenOpts{PreferOnSpreadKey: 0.35, PodEventsFirst: 0.3, InterPod: 0.75, NodeAffinity: 0.15, Existing: 0.6, Limits: 0.0, MaxPods: 6,
+	Namespaces: 0.3, MatchLabelKeys: 0.25}
 
 func constraintLabels(s *world.Scenario) []string {
 	var l []string
@@ -52,6 +53,18 @@ func constraintLabels(s *world.Scenario) []string {
 				req = "required"
 			}
 			add(fmt.Sprintf("%s-%s-%s", req, kind, shortKey(a.TopologyKey)))
+			switch {
+			case a.NamespaceSelector != nil && len(a.NamespaceSelector.MatchLabels) == 0 && len(a.NamespaceSelector.MatchExprs) == 0:
+				add("term-namespaceSelector-empty")
+			case a.NamespaceSelector != nil:
+				add("term-namespaceSelector")
+			}
+			if len(a.Namespaces) > 0 {
+				add("term-namespaces-list")
+			}
+			if len(a.MatchLabelKeys) > 0 {
+				add("term-matchLabelKeys")
+			}
 		}
 		for _, sp := range p.Spreads {
 			mode := "ScheduleAnyway"
@@ -62,7 +75,16 @@ func constraintLabels(s *world.Scenario) []string {
 			if sp.MinDomains != nil {
 				add("spread-minDomains")
 			}
+			if len(sp.MatchLabelKeys) > 0 {
+				add("spread-matchLabelKeys")
+				if len(sp.MatchExprs) > 0 {
+					add("spread-matchLabelKeys-api-merged")
+				}
+			}
 		}
+	}
+	if len(s.Namespaces) > 0 {
+		add("several-namespaces")
 	}
 	return l
 }
@@ -83,8 +105,8 @@ func Ops() []*core.Op {
 	return []*core.Op{
 		{
 			Name: "c02.pass",
-			Doc:  "whole real Provisioner.Schedule passes on batches mixing required/preferred pod affinity, anti-affinity and topology spread (minDomains, inclusion policies) over existing pod distributions and 1-3 zones; end state judged by the inter-pod specification",
-			N:    func(t core.Tier) int { return map[core.Tier]int{core.Quick: 500, core.Thorough: 10000}[t] },
+			Doc:  "whole real Provisioner.Schedule passes on batches mixing required/preferred pod affinity, anti-affinity and topology spread (minDomains, inclusion policies) over existing pod distributions and 1-3 zones, pods in several namespaces with namespaces / namespaceSelector on the terms, rollouts with matchLabelKeys (two revisions, selector merged by the API server or not); end state judged by the inter-pod specification",
+			N:    func(t core.Tier) int { return map[core.Tier]int{core.Quick: 800, core.Thorough: 10000}[t] },
 			Gen:  func(r *rand.Rand, t core.Tier) any { return world.GenScenario(r, passOpts) },
 			Impl: implPass,
 			Rule: "non-trivial = at least two pods were placed and at least one placed pod carries a required inter-pod constraint or DoNotSchedule spread",
